@@ -4,6 +4,7 @@ import (
 	"fmt"
 	"strings"
 	"testing"
+	"unicode/utf8"
 
 	"github.com/opsidian/parsley/combinator"
 	"github.com/opsidian/parsley/data"
@@ -20,16 +21,24 @@ func checkC02(ci interface{}, st *Stats) error {
 	g, in := c.G, c.In
 	g.number()
 	lr := classifyGrammar(g, st)
+	if c.Wide != 0 {
+		if c.Wide < 0x80 || !utf8.ValidRune(rune(c.Wide)) {
+			return Discard{"not a multi-byte rune"}
+		}
+		// the model's terminal 'b' is a multi-byte rune for the library; the bound is about bytes
+		in = widen(in, rune(c.Wide)).Lib
+		st.Class("terminal b is a multi-byte rune")
+	}
 	probe := NewProbe()
 	probe.InLen = len(normCRLF([]byte(in)))
 	_, _, probe.Base = NewCtxAt(in, c.PreLen)
-	long := len(in) > 40
+	long := len(c.In) > 40
 	if long {
 		// long inputs (only drawn for small unambiguous templates): the work is quadratic
 		probe.Budget = 40000000
 		st.Class("input of 250-700 bytes")
 	}
-	b := Build(g, BuildOpts{MemoRules: c.memoRules(), Probe: probe})
+	b := Build(g, BuildOpts{MemoRules: c.memoRules(), Probe: probe, Wide: rune(c.Wide)})
 	for nt := range g.Rules {
 		for i := 0; i <= len(in); i++ {
 			if long && (i > 0 || nt > 0) {
@@ -63,7 +72,7 @@ func checkC02(ci interface{}, st *Stats) error {
 	// The same parser graph on a second, shorter input with a new file, reader and context: the
 	// bound belongs to the parse, not to the grammar object.
 	if !long && len(in) >= 2 {
-		in2 := in[:len(in)/2]
+		in2 := widen(c.In[:len(c.In)/2], rune(c.Wide)).Lib
 		probe.InLen = len(normCRLF([]byte(in2)))
 		probe.Base = 1
 		for nt := range g.Rules {
@@ -130,7 +139,11 @@ func init() {
 			// tests for failure (P -> P+ b | a, a left-recursive first Choice alternative, ...)
 			o.Unstratified = rapid.IntRange(0, 2).Draw(t, "unstratified") == 0
 			g := GenGrammar(t, o)
-			return &GCase{G: g, In: GenInput(t, g, o), MemoAll: rapid.Bool().Draw(t, "memoAll"), PreLen: pre}
+			wideRune := 0
+			if rapid.IntRange(0, 5).Draw(t, "wide") == 0 {
+				wideRune = int(rapid.SampledFrom([]rune{0x80, 0xe9, 0xff, 0x100, 0x7ff, 0x800, 0x20ac, 0xfffd, 0xffff, 0x10000, 0x1f600}).Draw(t, "wideRune"))
+			}
+			return &GCase{G: g, In: GenInput(t, g, o), MemoAll: rapid.Bool().Draw(t, "memoAll"), PreLen: pre, Wide: wideRune}
 		},
 		Check: checkC02,
 	})
